@@ -14,6 +14,7 @@ import os
 import shutil
 import stat
 import sys
+import threading
 from typing import Any, Callable, Dict, Iterable, List, Optional, Sequence, Tuple
 
 RESERVED = {"": 0, ".": 1, "..": 2, "data": 3, "metadata": 4}
@@ -99,6 +100,48 @@ def standard_spec(ws: str) -> Spec:
         ("out/metadata", "dir", None),
         ("out/x", "file", b"OUTSIDE-X"),
     ]
+
+
+def acyclic_spec(ws: str) -> Spec:
+    """A second arrangement WITHOUT any cycle (no self loop, no link to an ancestor), so that even a walk that
+    follows links terminates and its result can be judged: directory links at depth >= 1 below the listed
+    prefixes pointing OUT of the root (absolute, and relative to the sibling), an inward directory link, an
+    outward file link, nested foreign directories, and the in-flight marker directory reached through an
+    outward link."""
+    out = os.path.join(ws, "out")
+    return [
+        ("wh", "dir", None),
+        ("wh/tbl", "dir", None),
+        ("wh/tbl/data", "dir", None),
+        ("wh/tbl/data/f.parquet", "file", b"INSIDE-DATA"),
+        ("wh/tbl/data/part", "dir", None),
+        ("wh/tbl/data/part/a.parquet", "file", b"INSIDE-PART"),
+        ("wh/tbl/data/ext", "link", out),                                   # outward DIRECTORY link below data
+        ("wh/tbl/data/part/deep", "link", os.path.join(out, "nested")),      # ... and two levels down
+        ("wh/tbl/data/sibl", "link", "../../" + SIB_NAME),                   # relative, to the sibling-prefix directory
+        ("wh/tbl/data/hot", "link", "part"),                                 # inward directory link
+        ("wh/tbl/data/ln_file", "link", os.path.join(out, "secret.txt")),    # outward FILE link
+        ("wh/tbl/metadata", "dir", None),
+        ("wh/tbl/metadata/m.json", "file", b"{}"),
+        ("wh/tbl/metadata/ext", "link", os.path.join(out, "metadata")),
+        ("wh/tbl/x", "file", b"INSIDE-X"),
+        ("wh/" + SIB_NAME, "dir", None),
+        ("wh/" + SIB_NAME + "/secret.txt", "file", b"SIBLING-SECRET"),
+        ("wh/" + SIB_NAME + "/data", "dir", None),
+        ("wh/" + SIB_NAME + "/data/f.parquet", "file", b"SIBLING-DATA"),
+        ("wh/lnroot", "link", ROOT_NAME),
+        ("out", "dir", None),
+        ("out/secret.txt", "file", b"OUTSIDE-SECRET"),
+        ("out/nested", "dir", None),
+        ("out/nested/deeper.bin", "file", b"OUTSIDE-DEEPER"),
+        ("out/data", "dir", None),
+        ("out/data/f.parquet", "file", b"OUTSIDE-DATA"),
+        ("out/metadata", "dir", None),
+        ("out/metadata/foreign.inflight", "file", b'{"file_path": "data/f.parquet"}'),
+    ]
+
+
+ACYCLIC_COMPONENTS = ["..", ".", "", "data", "metadata", "part", "ext", "hot", "sibl", "deep"]
 
 
 def materialise(ws: str, spec: Spec, only_under: Optional[str] = None) -> None:
@@ -261,9 +304,11 @@ class Audit:
     """Process-wide audit hook (sys.addaudithook cannot be removed; recording is switched on per call)."""
 
     _installed: Optional["Audit"] = None
+    MAX_EVENTS = 4000
 
     def __init__(self) -> None:
         self.on = False
+        self.owner = threading.get_ident()
         self.events: List[Tuple[str, str, Optional[str], str]] = []   # (event, path as given, kernel target at event time, cwd)
 
     @classmethod
@@ -277,6 +322,8 @@ class Audit:
     def _hook(self, event: str, args: Tuple[Any, ...]) -> None:
         if not self.on or event not in WATCHED:
             return
+        if threading.get_ident() != self.owner:
+            return                            # harness helper threads (watchdog) are not the library under test
         self.on = False                       # no recursion while we look at the path
         try:
             paths: List[Any] = []
@@ -301,12 +348,14 @@ class Audit:
                     # open() of a directory as a file fails with EISDIR: nothing is read or written.
                     # (os.open(dir, O_RDONLY) for fsync succeeds but reads no content and lists nothing.)
                     continue
-                self.events.append((event, p, tgt, os.getcwd()))
+                if len(self.events) < self.MAX_EVENTS:     # a runaway walk must not exhaust memory through its own log
+                    self.events.append((event, p, tgt, os.getcwd()))
         finally:
             self.on = True
 
     def record(self, fn: Callable[[], Any]) -> Tuple[Any, Optional[BaseException], List[Tuple[str, str, Optional[str], str]]]:
         self.events = []
+        self.owner = threading.get_ident()
         self.on = True
         try:
             try:
